@@ -74,7 +74,7 @@ def check(ctx, src):
                         nn = any(isinstance(x.node, ast.Compare) and isinstance(x.node.ops[0], ast.IsNot) and isinstance(x.node.comparators[0], ast.Constant) and x.node.comparators[0].value is None for x in at_k)
                         truthy = any(isinstance(x.node, (ast.Name, ast.NamedExpr)) or (isinstance(x.node, ast.Call) and dotted(x.node.func) == "getattr") for x in at_k)
                         if a != "is_tstring" and truthy and not nn:
-                            ctx.decide("Q-ATTRS", key + " test", False, f"`{a}` (like every extra attribute) is emitted under a truthiness test {[str(x) for x in at_k]}; an empty string is a value distinct from None and must survive",
+                            ctx.decide_tt("Q-ATTRS", key + " test", False, f"`{a}` (like every extra attribute) is emitted under a truthiness test {[str(x) for x in at_k]}; an empty string is a value distinct from None and must survive",
                                        R, kc.lineno, witness=f"(quote <{cls} {a}=\"\">) comes back with {a}=None")
                             continue
                 ctx.decide("Q-ATTRS", key, None if generic else False, f"the `{a}` attribute of {cls} is not emitted by quote", R, f.lineno, witness=f"(quote <{cls} with {a}>) loses {a}", detail="emitted")
@@ -83,14 +83,14 @@ def check(ctx, src):
             c, fn, fv, at = sites[0]
             if not (isinstance(getattr(c, "_parent", None), ast.Call) and dotted(c._parent.func) == "Keyword"):
                 # the attribute name is handed to a table-driven helper: the test it is emitted under is not visible here
-                ctx.decide("Q-ATTRS", key + " test", None, f"`{a}` is emitted through a table-driven helper", R, c.lineno)
+                ctx.decide_tt("Q-ATTRS", key + " test", None, f"`{a}` is emitted through a table-driven helper", R, c.lineno)
             elif a == "is_tstring":
                 ok = f"{fv}.is_tstring" in at
-                ctx.decide("Q-ATTRS", key + " test", ok, f"is_tstring is emitted under {at}", R, c.lineno, detail="boolean")
+                ctx.decide_tt("Q-ATTRS", key + " test", ok, f"is_tstring is emitted under {at}", R, c.lineno, detail="boolean")
             else:
                 ok = f"{fv}.{a} is not None" in at
                 truthy = f"{fv}.{a}" in at
-                ctx.decide("Q-ATTRS", key + " test", True if ok else (False if truthy else None),
+                ctx.decide_tt("Q-ATTRS", key + " test", True if ok else (False if truthy else None),
                            f"`{a}` is emitted under {at}; an empty string is a value distinct from None and must survive (the test must be `is not None`)", R, c.lineno,
                            witness=f"(quote <{cls} {a}=\"\">) comes back with {a}=None", detail="is not None")
             ctx.ok("Q-ATTRS", key, "emitted")
